@@ -62,6 +62,8 @@ class FcpV2:
         self.structs += fcp.structs
         self.enums += fcp.enums
         self.impls += fcp.impls
+        self.services += fcp.services
+        self.devices += fcp.devices
 
     def get_type(self, type: Type) -> Maybe[Union[Enum, Struct]]:
         """Get node corresponding to type."""
